@@ -9,6 +9,7 @@ import (
 
 	"golang.org/x/tools/go/ssa"
 
+	"gohbaseverif/bounds"
 	"gohbaseverif/kit"
 )
 
@@ -136,6 +137,7 @@ func runC17(c *kit.Ctx) {
 		}
 		return r
 	}
+	eng17 := bounds.New(p)
 	isTrue := func(b *bool) bool { return b != nil && *b }
 	isFalse := func(b *bool) bool { return b != nil && !*b }
 	kit.Instrs(sl, func(in ssa.Instruction) {
@@ -148,6 +150,16 @@ func runC17(c *kit.Ctx) {
 		for _, lf := range valueLeaves(kit.Res(r, 0), r.Block()) {
 			f := factsOf(lf.facts)
 			v := lf.val
+			// what one comparison says about the other: not below 30s is not below 5s, below 5s is below 30s
+			tr, fl := true, false
+			if isFalse(f.lt30) && f.lt5 == nil {
+				f.lt5 = &fl
+			}
+			if isTrue(f.lt5) && f.lt30 == nil {
+				f.lt30 = &tr
+			}
+			lin := eng17.Lin(v)
+			bo1 := bounds.Var(bounds.Sym{K: ssa.Value(boP)})
 			errNil := kit.IsNilConst(kit.ResolveLeaf(kit.Res(r, 1), lf.path))
 			// x*k or k*x, x+k or k+x
 			binop := func(op token.Token) (int64, bool) {
@@ -177,12 +189,18 @@ func runC17(c *kit.Ctx) {
 					"cancelled: returns ctx.Err()", "the Done() case does not return the context's error")
 			case f.waited && isTrue(f.lt5):
 				k, isBo := binop(token.MUL)
+				if !isBo && isZeroLin(lin.Sub(bo1.Scale(2))) {
+					k, isBo = 2, true // written as backoff + backoff
+				}
 				c.Check(isBo && k == 2 && errNil, sl, "return", r.Pos(), "backoff < 5s: returns backoff*2", "backoff < 5s edge does not return backoff*2")
 			case f.waited && isFalse(f.lt5) && isTrue(f.lt30):
 				k, isBo := binop(token.ADD)
+				if !isBo && isZeroLin(lin.Sub(bo1).Sub(bounds.Const(5*sec))) {
+					k, isBo = 5*sec, true
+				}
 				c.Check(isBo && k == 5*sec && errNil, sl, "return", r.Pos(), "5s <= backoff < 30s: returns backoff+5s", "5s<=backoff<30s edge does not return backoff+5s")
 			case f.waited && isFalse(f.lt5) && isFalse(f.lt30):
-				c.Check(v == ssa.Value(boP) && errNil, sl, "return", r.Pos(), "backoff >= 30s: returns backoff unchanged", "backoff >= 30s edge does not return backoff unchanged")
+				c.Check((v == ssa.Value(boP) || isZeroLin(lin.Sub(bo1))) && errNil, sl, "return", r.Pos(), "backoff >= 30s: returns backoff unchanged", "backoff >= 30s edge does not return backoff unchanged")
 			default:
 				c.Unk(sl, "return", r.Pos(), "return under conditions that match no case of the stated schedule: "+strings.Join(f.other, "; "))
 			}
@@ -221,6 +239,7 @@ func runC17(c *kit.Ctx) {
 	c.StartRule("R3", "every cycle of every retry loop waits, is bounded, or is a tabled NotServingRegionError cycle", 6)
 	retryLoopsWait(c)
 	exceptionTableOracle(c)
+	failedDialDeclaresTheConnectionDead(c)
 	probeClassifiesOutcome(c)
 	noWaitlessRecursion(c)
 	zkSessionIsClosed(c)
@@ -594,8 +613,8 @@ func retryLoopsWait(c *kit.Ctx) {
 			// (a) counter-bounded: this edge is the false edge of "counter > K"
 			if len(from.Instrs) > 0 {
 				if iff, ok := from.Instrs[len(from.Instrs)-1].(*ssa.If); ok && from.Succs[1] == to && from.Succs[0] != to {
-					if cmp, ok := kit.CanonCmp(iff.Cond, true); ok && cmp.Op == token.GTR && !cmp.Bytes {
-						if k, okk := kit.ConstInt(cmp.Y); okk && k <= 1 {
+					if cmp, ok := kit.CanonCmp(iff.Cond, true); ok && (cmp.Op == token.GTR || cmp.Op == token.GEQ) && !cmp.Bytes {
+						if k, okk := kit.ConstInt(cmp.Y); okk && (cmp.Op == token.GTR && k <= 1 || cmp.Op == token.GEQ && k <= 2) {
 							if inc := counterIncrement(cmp.X); inc != nil && waitBlocks[from.Succs[0]] && counterNeverReset(cmp.X, inc) {
 								// every way from this edge back to the test passes the increment
 								e := kit.PathFromBlock(to, kit.PathQuery{
@@ -772,10 +791,10 @@ func flagEdgeIsCounterBounded(from, to *ssa.BasicBlock, waitBlocks map[*ssa.Basi
 			continue
 		}
 		cmp, ok := kit.CanonCmp(e, true)
-		if !ok || cmp.Op != token.GTR || cmp.Bytes {
+		if !ok || (cmp.Op != token.GTR && cmp.Op != token.GEQ) || cmp.Bytes {
 			return false
 		}
-		if k, okk := kit.ConstInt(cmp.Y); !okk || k > 1 {
+		if k, okk := kit.ConstInt(cmp.Y); !okk || (cmp.Op == token.GTR && k > 1) || (cmp.Op == token.GEQ && k > 2) {
 			return false
 		}
 		cmpI, ok := e.(ssa.Instruction)
